@@ -651,6 +651,7 @@ pub fn gen_plan(seed: u64, prof: &Profile) -> Plan {
     }
 
     let tracing_targets_only = prof.tracing && r.chance(1, 8);
+    let late_logs = prof.tracing && !tracing_targets_only && r.chance(1, 2);
     let tags_filter = (prof.pipeline_pm > 0 && r.chance(1, 8))
         .then(|| (*r.pick(&["not @serial", "not @allow.skipped", "@serial or not @allow.skipped", "@allow.skipped and not @serial", "@allow.skipped or @serial"])).to_owned());
     let mut cfg = cfg;
@@ -679,5 +680,6 @@ pub fn gen_plan(seed: u64, prof: &Profile) -> Plan {
         pipeline,
         filtered_rules,
         tracing_targets_only,
+        late_logs,
     }
 }
